@@ -393,6 +393,16 @@ def check(repo, rep, tier):
                 rep.ok('R14.6', '%s:%s %s' % (mod.rel, fn.lineno, fn.name), '%s: closure called only by name from its host, shape-specific reads judged in its callers' % fn.name, nontrivial=False)
                 continue
         if isinstance(par_, ast.ClassDef) and fn.name.startswith('_') and not fn.name.startswith('__'):
+            # a private method that does not call itself and is only ever called as self.<name>(..) from methods of its own class
+            # (the walk `==` and `^` share): read in place there, behind the isinstance tests its callers make
+            uses_ = [a_ for a_ in ast.walk(mod.tree) if isinstance(a_, ast.Attribute) and a_.attr == fn.name and isinstance(a_.ctx, ast.Load)]
+            direct_ = [a_ for a_ in uses_ if isinstance(a_.value, ast.Name) and a_.value.id == 'self' and isinstance(getattr(a_, '_parent', None), ast.Call) and a_._parent.func is a_
+                       and any(p_ is par_ for p_ in _parents_of(a_))]
+            recursive_ = any(any(p_ is fn for p_ in _parents_of(a_)) for a_ in uses_)
+            if uses_ and len(direct_) == len(uses_) and not recursive_:
+                rep.ok('R14.6', '%s:%s %s' % (mod.rel, fn.lineno, fn.name), '%s: private method called only from its own class, shape-specific reads judged in its callers' % fn.name, nontrivial=False)
+                continue
+        if isinstance(par_, ast.ClassDef) and fn.name.startswith('_') and not fn.name.startswith('__'):
             uses_ = [a_ for a_ in ast.walk(mod.tree) if isinstance(a_, ast.Attribute) and a_.attr == fn.name and isinstance(a_.ctx, ast.Load)]
             as_arg = [a_ for a_ in uses_ if isinstance(getattr(a_, '_parent', None), ast.Call) and a_ in getattr(a_, '_parent').args]
             if uses_ and len(as_arg) == len(uses_):
